@@ -75,6 +75,8 @@ def ulps(a, b):
 
 def run_case(scn):
     t = record.run_solver(scn, listener=True)
+    if t.fp_exhausted:
+        return {"violations": [], "obs": {"fp_domain_exhausted": 1}, "skip": "fp-domain-exhausted"}
     viol = []
     obs = {"runs": 1}
     N, eps, lim = scn["N"], scn["eps"], scn["iters"]
